@@ -14,6 +14,21 @@ STATIC = S.STATIC + ["Reflect/GroupChecksProofs.vo", "Reflect/NormChecksProofs.v
                      "Symmetry/GroundAgree.vo"]
 
 
+def origin_moved(cr, tables, rng):
+    """the same crystal described from another origin / setting-equivalent frame: a tabulated normalizer of
+    its group applied to the fractional coordinates of the standard description (this is exactly "the origin
+    moved, which includes every permutation of equivalent Wyckoff sites")"""
+    norms = tables[2].get(cr["sg"], [])
+    if not norms:
+        return None
+    n = rng.choice(norms)
+    T = np.array([[float(v) for v in row] for row in n["transformation"]])
+    P = np.array(cr["scaled_positions"]) @ T[:3, :3].T + T[:3, 3]
+    out = dict(cr)
+    out["scaled_positions"] = (P % 1.0).tolist()
+    return out
+
+
 def family(ctx, tables, per_group, n_pres, max_atoms=120, groups=None):
     """per_group crystals in every space group, each with the base description + n_pres re-presentations."""
     rng = ctx.rng
@@ -30,25 +45,49 @@ def family(ctx, tables, per_group, n_pres, max_atoms=120, groups=None):
             cases.append({"id": cid, "sg": sg, "base": base, "crystal": cr, "pres": {"kind": "standard"}})
             cid += 1
             for p in range(n_pres):
-                sup = (p % 3 == 2) and len(cr["numbers"]) * 2 <= max_atoms
-                pr, desc = K.represent(cr, rng, supercell=sup, shear=(p % 2 == 0) or sup, wrap=(p % 2 == 0))
+                # supercells (|det| <= 4, lattice-symmetry breaking) for every third presentation, and in the
+                # short family for every fourth crystal; origin moved for every other one
+                sup = ((p % 3 == 2) or (n_pres <= 2 and p == 1 and base % 4 == 0)) and len(cr["numbers"]) * 2 <= max_atoms
+                src = cr
+                moved = False
+                if (p + base) % 2 == 0:
+                    om = origin_moved(cr, tables, rng)
+                    if om is not None:
+                        src, moved = om, True
+                pr, desc = K.represent(src, rng, supercell=sup, shear=(p % 2 == 0) or sup, wrap=(p % 2 == 0))
                 if K.stable_group(pr) != sg:
                     disc += 1
                     continue
-                cases.append({"id": cid, "sg": sg, "base": base, "crystal": pr, "pres": {k: (v if k == "permuted" else True) for k, v in desc.items()}})
+                d = {k: (v if k == "permuted" else True) for k, v in desc.items()}
+                if moved:
+                    d["origin_moved_by_tabulated_normalizer"] = True
+                cases.append({"id": cid, "sg": sg, "base": base, "crystal": pr, "pres": d})
                 cid += 1
     return cases, disc
 
 
-def run_impl(cases, jobs=8):
-    chunks = [cases[i::jobs * 2] for i in range(jobs * 2)]
+def run_impl(cases, jobs=8, reuse=False):
+    """All presentations of one crystal run consecutively in the same interpreter (so that any state kept
+    between analyses is exercised).  With reuse=True every chunk additionally feeds its crystals to ONE
+    analyzer instance through set_system; returns (rows, reuse_rows)."""
+    nchunk = jobs * 2
+    chunks = [[] for _ in range(nchunk)]
+    for c in cases:
+        chunks[c.get("base", c["id"]) % nchunk].append(c)
     chunks = [c for c in chunks if c]
-    outs = C.impl_run_parallel("c05_impl", [{"cases": [{"id": c["id"], "crystal": c["crystal"]} for c in ch]} for ch in chunks], jobs=jobs)
-    rows = {}
+    payloads = []
+    for ch in chunks:
+        pl = {"cases": [{"id": c["id"], "crystal": c["crystal"]} for c in ch]}
+        if reuse:
+            pl["reuse"] = [{"id": c["id"], "crystal": c["crystal"]} for c in ch[:12]]
+        payloads.append(pl)
+    outs = C.impl_run_parallel("c05_impl", payloads, jobs=jobs)
+    rows, rr = {}, []
     for o in outs:
         for r in o["rows"]:
             rows[r["id"]] = r
-    return rows
+        rr += o.get("reuse", [])
+    return (rows, rr) if reuse else rows
 
 
 def slit(s):
@@ -210,3 +249,56 @@ def c06_pair_predicate(a, b, sg, tables):
                     bad.append("set of atomic positions differs for a parameter-free cubic structure (Z=%d)" % zz)
                     break
     return bad
+
+
+# ---- search aid (untrusted): which occupation patterns make a given normalizer win -----------------------
+def py_ground_state(perms, letters, numbers):
+    """Python mirror of Symmetry/GroundState.ground_state; returns the chosen index (0 = identity)."""
+    cands = [(0, {l: l for l in set(letters)})] + [(i + 1, p) for i, p in enumerate(perms)]
+    if not perms:
+        return 0
+
+    def counts(p):
+        d = {}
+        for l, z in zip(letters, numbers):
+            w = p.get(l)
+            if w is not None:
+                d[(w, z)] = d.get((w, z), 0) + 1
+        return d
+    reps = [(i, counts(p)) for i, p in cands]
+    ws = sorted({v for _, p in cands for v in p.values()}, key=lambda s: ord(s[0]))
+    zs = sorted(set(numbers))
+    found = False
+    for w in ws:
+        if found:
+            break
+        for z in zs:
+            m = max((c.get((w, z), 0) for _, c in reps), default=0)
+            if m != 0:
+                reps = [(i, c) for i, c in reps if c.get((w, z), 0) == m]
+            if len(reps) == 1:
+                found = True
+    return reps[0][0]
+
+
+def patterns_selecting(tables, sg, k, rng, max_atoms=120, limit=4):
+    """occupation patterns [(letter, Z)] of group sg for which normalizer k is the one the search applies"""
+    import itertools
+    lets = K.table_letters(tables, sg)
+    perms = [n["permutations"] for n in tables[2].get(sg, [])]
+    out = []
+    names = [l for l, m, nf in lets]
+    mult = {l: m for l, m, nf in lets}
+    combos = [c for r in (1, 2, 3) for c in itertools.combinations(names, r) if sum(mult[l] for l in c) <= max_atoms]
+    rng.shuffle(combos)
+    for combo in combos[:4000]:
+        zs = rng.sample(K.SPECIES, len(combo))
+        letters, numbers = [], []
+        for l, z in zip(combo, zs):
+            letters += [l] * mult[l]
+            numbers += [z] * mult[l]
+        if py_ground_state(perms, letters, numbers) == k + 1:
+            out.append(list(zip(combo, zs)))
+            if len(out) >= limit:
+                break
+    return out
